@@ -11,6 +11,7 @@ mod layers;
 mod opsat;
 mod pipe;
 mod rec;
+mod reccustom;
 mod tabeval;
 mod props;
 mod tree;
